@@ -84,11 +84,6 @@ package connectconformance
 //@           invariant forall i int :: 0 <= i && i < len(filtered) ==>
 //@        filtered[i] != nil && fresh(filtered[i]) && allocated(filtered[i]) && filtered[i].Request != nil && fresh(filtered[i].Request) && allocated(filtered[i].Request) && grpcImplOK(filtered[i], clientIsGRPCImpl)
 
-//@ func populateExpectedResponse
-//@   trusted
-//@   requires testCase != nil
-//@   modifies conformancev1.TestCase.ExpectedResponse
-//@   //# specified under C02
 
 // expandSuite: a misconfigured suite is an error, never a silent expansion; everything it adds
 // to the library is added by expandCases for a config case that is in the given set.
@@ -108,7 +103,7 @@ package connectconformance
 //@ mapvalues map[string]*conformancev1.TestSuite: v != nil
 //@ func (*testCaseLibrary).populateExpectedResponses
 //@   requires lib != nil
-//@   modifies conformancev1.TestCase.ExpectedResponse
+//@   modifies pbDecodedFrom, lastDecoded, conformancev1.TestCase.ExpectedResponse, conformancev1.Error.Details, []*anypb.Any, ceCode, ceMsg, ceDetails
 // newTestCaseLibrary: suites must be named, non-empty and uniquely named; a library is only
 // returned when it has at least one test case, and then it is grouped.
 //@ func newTestCaseLibrary
